@@ -219,8 +219,12 @@ def p_pmap(i, items):
         fn = functools.partial(c20_tasks.task, i["a"], i["b"], i["lat"])
     def f():
         res = pb.pmap(fn, items, chunksize=i["chunksize"], nproc=i["nproc"], **kw)
+        out = _ints(res)
+        if i.get("scribble"):      # the caller empties / extends the list it got back
+            res.clear()
+            res.append(-777)
         _keep(res, _ints)
-        return _ints(res)
+        return out
     return _guard(f)
 
 
